@@ -51,7 +51,7 @@ UNOPS = ["-", "+", "\\", "\\\\", "\\+", "not", "~", "~=", ":-"]
 # operand kinds, simplest first (the order is the shrink order)
 LEAVES = ["a", "X", "1", "-1", "2.5", "-2.5", "_", "[]", "[a,X]", "[a|T]", '"s"', "'A b'", "f(a)", "f(a,-1)",
           "0.5::a", "1.0e20", "0x1F", "!"]
-LEAVES_INNER = ["a", "X", "-1", "2.5", "[a|T]", "f(a)"]
+LEAVES_INNER = ["a", "X", "-1", "2.5", "[a|T]", "f(a)"]  # operands of the inner expression at depth 2
 
 # contexts; an argument / operand position that needs its own parentheses for high-priority operators is written
 # with them ("q((%s))": the parser rejects "q((a);(b))" but accepts "q(((a);(b)))")
@@ -112,8 +112,8 @@ def depth2_block(block):
        ["L", op]   (inner) op (leaf)        for every inner depth-1 expression and every leaf
        ["R", op]   (leaf) op (inner)
        ["U", op]   op (inner)
-       ["B", op]   ((a) op1 (b)) op ((c) op2 (d))   for every pair of binary operators op1, op2
-       ["UU", op]  op (op1 (leaf))  /  ((op1 leaf)) op (leaf) ... prefix operators below everything
+       ["B", op]   ((a) op1 (b)) op ((c) op2 (d))   for every pair of binary operators op1, op2, and
+                   (op1 a) op (op2 -1) for every pair of prefix operators in both source forms
     """
     kind, op = block
     if kind == "L":
